@@ -378,7 +378,7 @@ func c06r5(r *R) {
 		}
 		u := p.Ret[0]
 		if u == "nil" && p.hasCond(func(c string) bool {
-			return strings.HasPrefix(c, "((pac.Proxy).URL(") && strings.HasSuffix(c, " == nil)")
+			return strings.HasPrefix(c, "!((pac.Proxy).URL(") && strings.HasSuffix(c, " != nil)")
 		}) {
 			continue // DIRECT: the chosen entry has no URL, there is no proxy to give credentials to
 		}
